@@ -52,6 +52,14 @@ type Ctx struct {
 	harnessErr  []string
 	capsHit     []string
 	NoWrite     bool
+	Silent      bool
+}
+
+// Dummy returns a context that swallows reports (used when a path is re-built only
+// to reach a state whose oracles were already evaluated).
+func Dummy() *Ctx {
+	return &Ctx{Prop: "dummy", Tier: "quick", Start: time.Now(), Deadline: time.Now().Add(time.Hour), NoWrite: true, Silent: true,
+		Cov: map[string]interface{}{}, known: map[string]Finding{}, knownHit: map[string]int{}, violSigs: map[string]string{}}
 }
 
 func New(prop, tier string) *Ctx {
@@ -159,6 +167,10 @@ func (c *Ctx) HarnessError(msg string) {
 func (c *Ctx) Report(sig, what string, replay interface{}) bool {
 	c.mu.Lock()
 	defer c.mu.Unlock()
+	if c.Silent {
+		c.violSigs[sig] = ""
+		return false
+	}
 	if f, ok := c.known[sig]; ok {
 		if c.knownHit[sig] == 0 {
 			fmt.Printf("KNOWN-FINDING: property=%s %s [%s]\n", c.Prop, f.What, sig)
@@ -220,7 +232,7 @@ func (c *Ctx) Finish() int {
 		"seed":        c.Seed,
 		"level":       c.Level,
 		"coverage":    cov,
-		"assumptions": c.Assumptions,
+		"assumptions": append([]string{}, c.Assumptions...),
 		"wall_s":      wall,
 		"violations":  len(c.violSigs),
 	}
